@@ -362,10 +362,17 @@ PROPS = {
             "Replicon.C12.C12_tracker_confirm_result",
             "Replicon.C12.C12_tracker_contains",
             "Replicon.C12.C12_tracker_contains_any",
+            "Replicon.C12.C12_reported_only_when_applied",
+            "Replicon.C12.C12_buffered_not_counted",
+            "Replicon.C12.C12_report_is_tracker_verdict",
         ],
         "const_obligations": ["Consts.tickHalf = u32::MAX/2 (RepliconTick::cmp)", "Consts.historyBits (4 sites agree)", "Consts.historyInitMask"],
-        "profiles": [{"name": "c12"}],
-        "rule": "c12cmp: real RepliconTick::cmp on boundary and random pairs of absolute ticks (residues mod 2^32 go to the code); "
+        "profiles": [{"name": "c12"}, {"name": "sys_track", "shards": {"thorough": 8}}],
+        "rule": "End to end (profile sys_track = the sys_split set-up with track_mutate_messages always on: ticks split into 1..k mutate messages by small max sizes, "
+                "parts of a split tick lost, mutate messages overtaking the update message they depend on): after every client frame the MutateTickReceived events of the frame are "
+                "compared with the client model's tracker (lock step) and checked by an oracle on the implementation: a tick is reported once per session, and only when every mutate message "
+                "the server sent that client for that tick has been applied (= acknowledged). "
+                "c12cmp: real RepliconTick::cmp on boundary and random pairs of absolute ticks (residues mod 2^32 go to the code); "
                 "c12ch / c12smt: generated sequences of confirm / contains / contains_any calls on a real ConfirmHistory / "
                 "ServerMutateTicks over absolute ticks (distances 0..3, 31..33, 62..66, 127..129, 2^31-1.., bases around 0, 2^31, 2^32 and "
                 "multiples; every sequence ends with the whole-window range queries). After every call the implementation's answer / "
@@ -546,7 +553,7 @@ MANIFEST_TEXT = {
                 "types on ~34k generated sequences per quick run, with the set specification as oracle on the implementation's answers.",
         "design_ref": "DESIGN.md §7 C12, §4.1, §4.2",
         "note": "ServerMutateTicks: C12_tracker_refines / _confirm_result / _contains / _contains_any (ring = confirmation log, for all call "
-                "sequences that respect the protocol). End-to-end MutateTickReceived clause belongs to the protocol trace validation. "
+                "sequences that respect the protocol). End to end: C12_reported_only_when_applied / C12_buffered_not_counted / C12_report_is_tracker_verdict about the client model (only applied messages feed the tracker), tied by the sys_track lock step and oracle. "
                 "Trusted: Lean kernel, harness/driver, Rust shift semantics and VecDeque rotation as modelled.",
         "technique": "Lean 4 proof (refinement of a plain-set spec, induction over the confirmation list, BitVec bit lemmas) + constants extraction + differential correspondence",
     },
